@@ -1247,6 +1247,58 @@ func (la *lockAnalysis) solve() {
 	}
 }
 
+// writeSites: instructions of fn that mutate state guarded by lock (direct writes, or calls of functions that
+// require the lock in W mode, or calls passing a table-resident object to a function that writes it).
+func (la *lockAnalysis) writeSites(fn *ssa.Function, lock string) []ssa.Instruction {
+	fi := la.info[fn]
+	if fi == nil {
+		return nil
+	}
+	seen := map[ssa.Instruction]bool{}
+	var out []ssa.Instruction
+	add := func(in ssa.Instruction) {
+		if !seen[in] {
+			seen[in] = true
+			out = append(out, in)
+		}
+	}
+	for _, n := range fi.needs {
+		if n.lock == lock && n.mode == modeW && n.cond == -1 {
+			add(n.at)
+		}
+	}
+	org := orgCache[fn]
+	for in, gs := range fi.callees {
+		ci, ok := in.(ssa.CallInstruction)
+		if !ok {
+			continue
+		}
+		cc := ci.Common()
+		for _, g := range gs {
+			gi := la.info[g]
+			if r, ok := gi.req[lock]; ok && r.mode == modeW {
+				add(in)
+			}
+			var args []ssa.Value
+			if !cc.IsInvoke() && len(cc.Args) == len(g.Params) {
+				args = cc.Args
+			}
+			for pi, rm := range gi.preq {
+				if pi >= len(args) {
+					continue
+				}
+				if r, ok := rm[lock]; ok && r.mode == modeW {
+					if o := org[args[pi]]; o != nil && o.table && !la.isFresh(args[pi]) {
+						add(in)
+					}
+				}
+			}
+		}
+	}
+	sort.Slice(out, func(i, j int) bool { return out[i].Pos() < out[j].Pos() })
+	return out
+}
+
 // chain renders the call chain of a requirement down to the access.
 func (la *lockAnalysis) chain(r *reqEntry) []string {
 	var out []string
